@@ -129,8 +129,8 @@ def gen_pair(rng) -> dict:
         v1 = H.gen_value(rng, rng.randint(0, 2))
         for _ in range(20):
             m = H.mutate(rng, v1)
-            if m and not m[2] and H.valid(m[0]) and not any(n["k"] in ("func", "type", "enum", "path") for n in H.walk(m[0])) and not any(
-                n["k"] in ("func", "type", "enum", "path") for n in H.walk(v1)
+            if m and not m[2] and H.valid(m[0]) and not any(n["k"] in ("func", "type", "enum", "path", "obj") for n in H.walk(m[0])) and not any(
+                n["k"] in ("func", "type", "enum", "path", "obj") for n in H.walk(v1)
             ):
                 try:
                     if H.canon_key(m[0]) != H.canon_key(v1) and not H.unordered_elements(m[0]) and not H.unordered_elements(v1):
